@@ -374,6 +374,9 @@ class M(Model):
             out.append((f"{tag}: item volumes do not sum to the container volume", f"sum={tot} container={cv}"))
         return out
 
+    def _csv_round_trip(self, s0, valid_items, dims):
+        return _csv_round_trip_impl(self, s0, valid_items, dims)
+
     def validate_instance(self, s0):
         import jax
 
@@ -400,6 +403,7 @@ class M(Model):
                 out.append(("a valid item is larger than the container", ""))
         if self.gen_kind == "CSVGenerator":
             return out      # a CSV instance promises no tiling and has no generate_solution
+        out += self._csv_round_trip(s0, items[v], tuple(int(x) for x in (chi - clo)))
         if v.size:
             tot, cv = int(np.prod(items[v], -1).sum()), int(np.prod(chi - clo))
             if tot != cv:
@@ -472,6 +476,41 @@ class M(Model):
         if s.action_mask is not None and not np.array_equal(np.asarray(obs.action_mask), np.asarray(s.action_mask)):
             out.append(("action_mask differs from the state", ""))
         return out
+
+
+def _csv_round_trip_impl(model, s0, valid_items, dims):
+    """`save_instance_to_csv` followed by `CSVGenerator` on that file reproduces the instance's items (the exporter
+    and the CSV generator are the shipped pair for "active search" on a fixed instance).  First 4 instances only."""
+    import os
+    import tempfile
+
+    import jax
+
+    if getattr(model, "_csv_done", 0) >= 4:
+        return []
+    model._csv_done = getattr(model, "_csv_done", 0) + 1
+    from jumanji.environments.packing.bin_pack.generator import CSVGenerator, save_instance_to_csv
+
+    d = tempfile.mkdtemp(prefix="vf-csvrt-", dir="/dev/shm" if os.path.isdir("/dev/shm") else None)
+    path = os.path.join(d, "inst.csv")
+    try:
+        save_instance_to_csv(s0, path)
+        gen = CSVGenerator(path, max_num_ems=int(np.asarray(s0.ems_mask).shape[0]), container_dims=dims)
+        s1 = jax.device_get(gen(jax.random.PRNGKey(0)))
+    finally:
+        try:
+            os.remove(path)
+            os.rmdir(d)
+        except OSError:
+            pass
+    it = np.stack([np.asarray(s1.items.x_len), np.asarray(s1.items.y_len), np.asarray(s1.items.z_len)], -1).astype(np.int64)
+    got = sorted(map(tuple, it[np.asarray(s1.items_mask).astype(bool)].tolist()))
+    want = sorted(map(tuple, np.asarray(valid_items, np.int64).tolist()))
+    if got != want:
+        return [("CSV round trip (save_instance_to_csv -> CSVGenerator) does not reproduce the instance's items",
+                 f"{len(want)} items saved, {len(got)} items read back; extra {sorted(set(got) - set(want))[:3]} "
+                 f"missing {sorted(set(want) - set(got))[:3]}")]
+    return []
 
 
 def _extra(dims, items=6, ems=20, same=2):
